@@ -34,6 +34,22 @@ func (env *evalEnv) with(name string, b binding) *evalEnv {
 	return &n
 }
 
+// sideFact asserts a fact discovered while evaluating a contract expression (well-typedness of a loaded value ...).
+// It is guarded by the reachability of the program point the expression is evaluated at: facts about freshly numbered
+// objects of parallel branches must not meet unguarded.
+func (e *Enc) sideFact(env *evalEnv, t string) {
+	if t == "true" {
+		return
+	}
+	g := "true"
+	if e.curBlock != nil {
+		if r, ok := e.reach[e.curBlock]; ok {
+			g = r
+		}
+	}
+	e.assert(implies(g, t))
+}
+
 // typed evaluation result
 type tv struct {
 	v Val
@@ -259,7 +275,7 @@ func (e *Enc) eval(sx *Sx, env *evalEnv) tv {
 		}
 		lv := e.load(env.heap, addr, nil, st.Elem())
 		if len(env.bound) == 0 {
-			e.assert(e.typeFacts(lv, st.Elem()))
+			e.sideFact(env, e.typeFacts(lv, st.Elem()))
 		}
 		return tv{Val{lv, e.sortOf(st.Elem())}, st.Elem()}
 	case "deref":
@@ -271,7 +287,7 @@ func (e *Enc) eval(sx *Sx, env *evalEnv) tv {
 		}
 		lv := e.load(env.heap, x.v.T, nil, pt.Elem())
 		if len(env.bound) == 0 {
-			e.assert(e.typeFacts(lv, pt.Elem()))
+			e.sideFact(env, e.typeFacts(lv, pt.Elem()))
 		}
 		return tv{Val{lv, e.sortOf(pt.Elem())}, pt.Elem()}
 	case "old":
@@ -525,7 +541,7 @@ func (e *Enc) autoDeref(x tv, env *evalEnv) tv {
 			case *types.Slice, *types.Basic:
 				lv := e.load(env.heap, x.v.T, nil, pt.Elem())
 				if len(env.bound) == 0 {
-					e.assert(e.typeFacts(lv, pt.Elem()))
+					e.sideFact(env, e.typeFacts(lv, pt.Elem()))
 				}
 				return tv{Val{lv, e.sortOf(pt.Elem())}, pt.Elem()}
 			}
@@ -568,7 +584,7 @@ func (e *Enc) fieldOf(base tv, field string, env *evalEnv) tv {
 		}
 		lv := e.loadField(env.heap, base.v.T, name, st, i)
 		if len(env.bound) == 0 {
-			e.assert(e.typeFacts(lv, ft)) // heap cells hold well-typed values
+			e.sideFact(env, e.typeFacts(lv, ft)) // heap cells hold well-typed values
 		}
 		return tv{Val{lv, e.sortOf(ft)}, ft}
 	}
